@@ -90,52 +90,6 @@ def check_pair(prog, res: Result, rule, site, case, make_pair, max_depth=10):
                             "example": o.brief()[:300], "verdict": "ok" if not fails else fails[0].sig})
 
 
-def term_rules(prog, res: Result):
-    """Term: the hash key and the equality key are the same expression (items of the normal form)."""
-    th = prog.method("Term", "__hash__")
-    te = prog.method("Term", "__eq__")
-    hashed = []
-    for n in ast.walk(th.node):
-        if isinstance(n, ast.Call) and isinstance(n.func, ast.Name) and n.func.id == "hash" and n.args:
-            hashed.append(src_of(n.args[0]))
-    guard_ok = True
-    parents = {}
-    for n in ast.walk(th.node):
-        for c in ast.iter_child_nodes(n):
-            parents[c] = n
-    for n in ast.walk(th.node):
-        if isinstance(n, ast.Call) and isinstance(n.func, ast.Name) and n.func.id == "hash" and n.args \
-                and src_of(n.args[0]) in ("self._items", "self.items"):
-            # raw items may be hashed only where the term is known to be its own normal form
-            cur, ok = n, False
-            while cur in parents:
-                par = parents[cur]
-                if isinstance(par, ast.If):
-                    t = src_of(par.test)
-                    in_body = any(cur is b or cur in ast.walk(b) for b in par.body)
-                    positive = ("is_normalized" in t or "normalized() is self" in t) and not t.startswith("not ")
-                    negative = t.startswith("not ") and "is_normalized" in t
-                    if (in_body and positive) or (not in_body and negative):
-                        ok = True
-                        break
-                cur = par
-            if not ok:
-                guard_ok = False
-    allowed = {"self._items", "self.normalized()", "self.normalized()._items", "self.normalized().items",
-               "self.items"}
-    ok = bool(hashed) and set(hashed) <= allowed and guard_ok
-    res.ob("R19.1", "Term.__hash__", "hash key = items of the normal form", ok,
-           f"hash() is applied to {hashed}; raw items only under the is-normalized guard: {guard_ok}",
-           sig="term hash key is not the normal form")
-    cmpd = []
-    for n in ast.walk(te.node):
-        if isinstance(n, ast.Compare) and isinstance(n.ops[0], ast.Eq):
-            cmpd.append((src_of(n.left), src_of(n.comparators[0])))
-    ok = any(l.replace("self", "X") == r.replace("other", "X") and "normalized()" in l for l, r in cmpd)
-    res.ob("R19.1", "Term.__eq__", "equality key = items of the normal form", ok, f"compares {cmpd}",
-           sig="term equality key is not the normal form")
-
-
 def run(prog, tier) -> Result:
     res = Result("C19")
     res.explanation = (
